@@ -191,8 +191,11 @@ Proof.
   exists p, p'. split; [done|]. split; [done|]. intros pick f Hf.
   destruct (exec_run 200 (fun _ _ => 0%nat) Async (p_types p') (p_funs p') (init_config p')) as [t1| |] eqn:Er.
   - destruct (Hdet Async (fun _ _ => 0%nat) pick 200%nat f t1 eq_refl Er Hf) as (t2 & H2 & _ & Hl).
-    exists t2. split; [done|]. rewrite Hl.
-    revert Er. revert Hp Ht. vm_compute. intros [= <-]. vm_compute. intros [= <-]. vm_compute. intros [= <-]. reflexivity.
-  - exfalso. revert Er. revert Hp Ht. vm_compute. intros [= <-]. vm_compute. intros [= <-]. vm_compute. discriminate.
-  - exfalso. revert Er. revert Hp Ht. vm_compute. intros [= <-]. vm_compute. intros [= <-]. vm_compute. discriminate.
+    exists t2. split; [done|]. rewrite Hl. clear Hdet H2 Hl t2.
+    vm_compute in Hp. injection Hp as <-. vm_compute in Ht. injection Ht as <-.
+    vm_compute in Er. injection Er as <-. vm_compute. reflexivity.
+  - exfalso. clear Hdet. vm_compute in Hp. injection Hp as <-. vm_compute in Ht. injection Ht as <-.
+    vm_compute in Er. discriminate.
+  - exfalso. clear Hdet. vm_compute in Hp. injection Hp as <-. vm_compute in Ht. injection Ht as <-.
+    vm_compute in Er. discriminate.
 Qed.
